@@ -44,9 +44,10 @@
 //!                             port `joins_port::skipped_extras` of that loop, the suffixed class is
 //!                             emitted exactly when EVERY pixel satisfies the band predicate after its
 //!                             uncounted displacement is discounted,
-//!                                 t = 2 |cross(p)| - 2 m sk(side(p)),   t <= 0 or t^2 <= (w + 4)^2 L2,
-//!                             (tolerance 2.0 px after the discount, tighter than the text's 2.5, so that a further
-//!                             widening of ~0.9 px or more is NOT attributed to the finding; measured on 4000 strokes of width 13..=120 the
+//!                                 t = 2 |cross(p)| - 2 m sk(side(p)),   t <= 0 or t^2 <= (w + 3)^2 L2,   and w >= 34
+//!                             (tolerance 1.5 px after the discount, tighter than the text's 2.5; the unchanged code
+//!                             stays below 1.14 px; a widening defect is NOT attributed to the finding once the
+//!                             discounted excess exceeds 1.5 px or for any width below 34; measured on 4000 strokes of width 13..=120 the
 //!                             discounted excess over w/2 stays within [-1.26, +1.11] px, the range
 //!                             [-1.21, +0.93] of narrow strokes, so the discount is the whole effect).
 //!                             Axis-parallel and diagonal lines skip no step (sk = 0): any band failure
@@ -149,12 +150,16 @@ pub fn thick_oracle(ctx: &mut Ctx, s: Point, e: Point, w: u32, px: &[Point]) {
             let cross = dx * (p.y - s.y) as i128 - dy * (p.x - s.x) as i128;
             let side_sk = if cross < 0 { skl } else { skr } as i128;
             let t = 2 * cross.abs() - 2 * m * side_sk;
-            // after the discount the pixel must be within w/2 + 2.0 px (NOT the text's 2.5): measured on 60 000
-            // random strokes of width 13..=128 the discounted excess never exceeds 1.14 px (narrow strokes: 1.0),
-            // so an additional widening of about 0.9 px or more is not attributed to the known finding
-            t <= 0 || t * t <= (wi + 4) * (wi + 4) * l2
+            // after the discount the pixel must be within w/2 + 1.5 px (NOT the text's 2.5): exhaustively for
+            // max(|dx|,|dy|) <= 300, w <= 128 (audit 4) and on 60 000 random strokes the discounted excess of the
+            // unchanged code never exceeds 1.14 px. A further widening is attributed to the known finding only while
+            // the discounted excess stays below 1.5 px (on worst-case lines: less than ~0.4 px more)
+            t <= 0 || t * t <= (wi + 3) * (wi + 3) * l2
         });
-        if explained {
+        // (audit 4: the mechanism first exceeds the text's tolerance at w = 34 - exhaustively for all lines with
+        // max(|dx|,|dy|) <= 300 and w <= 33 the unchanged code stays inside the band - so the suffix needs w >= 34;
+        // below that every band failure is a VIOLATION)
+        if explained && w >= 34 {
             band_class = "C17:thick-band:wide-stroke-overcount";
         }
     }
